@@ -28,7 +28,7 @@ package PVM
 // ---- program well-formedness predicates (established by DeBlobProgramCode, see C03) ----
 //@ pred blockstart(p, t) = uint64(t) < uint64(len(p.Bitmasks)) && p.Bitmasks[int(t)] == 3
 //@ pred wf_code(p) = len(p.Bitmasks) == len(p.InstructionData) && len(p.Bitmasks) < 4294967296
-//@ pred wf_jt(p) = p.JumpTable.Length <= 8 && uint64(len(p.JumpTable.Data)) >= uint64(p.JumpTable.Size) * uint64(p.JumpTable.Length)
+//@ pred wf_jt(p) = p.JumpTable.Length <= 8 && p.JumpTable.Size < 2147483648 && uint64(p.JumpTable.Size) * uint64(p.JumpTable.Length) < 4294967296 && uint64(len(p.JumpTable.Data)) >= uint64(p.JumpTable.Size) * uint64(p.JumpTable.Length)
 //@ pred regs_ok(op, instr) = instr.Opcode == op && (spec.pvm_needs_dst(op) ==> instr.Dst < 13) && (spec.pvm_needs_src0(op) ==> instr.Src[0] < 13) && (spec.pvm_needs_src1(op) ==> instr.Src[1] < 13) && (spec.pvm_dst_is_src0(op) ==> instr.Dst == instr.Src[0])
 
 //@ table instrMetaExecForOpcode noarg
